@@ -5,7 +5,7 @@ import json
 import os
 
 HERE = os.path.dirname(os.path.dirname(os.path.abspath(__file__)))
-PY = "env PYTHONHASHSEED=0 OPENBLAS_NUM_THREADS=1 MKL_NUM_THREADS=1 PYTHONPATH=/repo:/verif /venv/bin/python /verif/run_check.py"
+PY = "env PYTHONHASHSEED=0 OPENBLAS_NUM_THREADS=1 MKL_NUM_THREADS=1 OMP_WAIT_POLICY=PASSIVE PYTHONPATH=/repo:/verif /venv/bin/python /verif/run_check.py"
 
 NOT_APPLICABLE = {
     "C03": "pure linear-algebra identities of four operator builders for a given (mesh, vector potential): no step, schedule, retry, fault or I/O occurs in the statement; its run-visible consequences are decided under C01, C02, C10, C17 (DESIGN.md section 5)",
